@@ -703,7 +703,8 @@ class Engine:
             self.decisions.append(d)
             self.solver.add(cond if d else z3.Not(cond))
             return d
-        if self.assume_feasible:        # explore both sides without asking (sound: an infeasible side only yields vacuous proofs)
+        if self.assume_feasible and i < 8:   # explore both sides without asking (sound: an infeasible side only yields vacuous proofs);
+            # only for the first decisions of a path - a loop whose exit is never asked for would not terminate
             self.pending.append(self.decisions + [False])
             self.decisions.append(True)
             self.prefix.append(True)
